@@ -51,6 +51,7 @@ func init() {
 			{ID: "C14-R26", Title: "an option of the VM sets its field whatever the value is", Floor: 1, Run: vmOptionsSetWhatTheyAreGiven},
 			{ID: "C14-R27", Title: "strings in import statements are validated by the function that accepts them", Floor: 1, Run: stringsInImportStatementsAreValidated},
 			{ID: "C14-R28", Title: "what holds loaded code is forgotten with it", Floor: 1, Run: whatHoldsLoadedCodeIsForgottenWithIt},
+			{ID: "C14-R29", Title: "where the VM keeps script values is enumerated", Floor: 4, Run: whereTheVMKeepsScriptValuesIsEnumerated},
 		},
 	})
 }
